@@ -526,9 +526,10 @@ Qed.
 Theorem pstep_Inv p o P P' r : PAll Inv P -> pstep p o P = (P', r) -> (positional o = true -> r <> Faulted) -> PAll Inv P'.
 Proof.
   intros HP H Hpos. destruct (positional o) eqn:Epos.
-  - apply pstep_unfault in H; auto. apply pstep_refines in H; auto. apply H.
+  - apply pstep_unfault in H; auto. apply pstep_refines in H; auto; [apply H|].
+    destruct o; try discriminate; exact I.
   - apply (pstep_G filled filled_Filled (fun _ => False)
-             (fun _ _ _ (F : False) => match F with end) (fun _ _ (F : False) => match F with end) p o P P' r) in H; auto.
+             (fun _ _ _ _ (F : False) => match F with end) (fun _ _ (F : False) => match F with end) p o P P' r) in H; auto.
     + apply H.
     + rewrite Epos. discriminate.
 Qed.
@@ -599,8 +600,7 @@ Proof.
     + rewrite pget_pset_other in H2 by auto. congruence.
   - destruct (pget P j); [|inversion H; subst; auto]. unfold on_obj in H.
     destruct (pget P i); inversion H; subst; auto. apply Same. apply pget_pset_other. congruence.
-  - destruct (i =? j) eqn:Eij; [inversion H; subst; auto|]. apply Nat.eqb_neq in Eij.
-    destruct (pget P i) as [dst|] eqn:Ei; [|inversion H; subst; auto].
+  - destruct (pget P i) as [dst|] eqn:Ei; [|inversion H; subst; auto].
     destruct (pget P j) as [src|] eqn:Ej; [|inversion H; subst; auto].
     inversion H; subst. rewrite pget_pset_other in H2 by congruence.
     destruct (Nat.eq_dec k j) as [->|Hne].
@@ -633,6 +633,18 @@ Proof.
   - eapply (on_obj_cap WInv) in H; eauto. intros s Hs.
     destruct (erase p pos s) as [s' o'] eqn:E. apply erase_good in E; auto. apply E.
   - destruct (i <? length P); inversion H; subst; auto. apply Same. apply pget_pset_other. congruence.
+  - eapply (on_obj_cap WInv) in H; eauto. intros s Hs. destruct (live_elem s k) as [x|] eqn:Ex; auto.
+    destruct (emplace p pos x s) as [s' o'] eqn:E. apply emplace_good in E; auto. apply E. eapply (live_elem_Q nonfresh); eauto.
+  - eapply (on_obj_cap WInv) in H; eauto. intros s Hs. destruct (live_elem s k) as [x|] eqn:Ex; auto.
+    destruct (emplace_back p x s) as [s' o'] eqn:E. apply (append_good nonfresh) in E; auto. apply E. eapply (live_elem_Q nonfresh); eauto.
+  - eapply (on_obj_cap WInv) in H; eauto. intros s Hs. destruct (live_elem s k) as [x|] eqn:Ex; auto.
+    destruct (insert_copy p x s) as [s' o'] eqn:E. apply (append_good nonfresh) in E; auto. apply E. eapply (live_elem_Q nonfresh); eauto.
+  - eapply (on_obj_cap WInv) in H; eauto. intros s Hs. destruct (live_elem s k) as [x|] eqn:Ex; auto.
+    destruct (push_back p x s) as [s' o'] eqn:E. apply (append_good nonfresh) in E; auto. apply E. eapply (live_elem_Q nonfresh); eauto.
+  - eapply (on_obj_cap WInv) in H; eauto. intros s Hs. destruct (self_range_valid s a b) eqn:V; auto.
+    destruct (insert_self_range p pos a b s) as [s' o'] eqn:E. apply (insert_self_range_good nonfresh) in E; auto. apply E.
+  - eapply (on_obj_cap WInv) in H; eauto. intros s Hs. destruct (self_range_valid s a b) eqn:V; auto.
+    destruct (push_back_self_range p a b s) as [s' o'] eqn:E. apply (insert_self_range_good nonfresh) in E; auto. apply E.
 Qed.
 
 (* ---------- whole histories ---------- *)
@@ -663,12 +675,31 @@ Qed.
 
 Definition plain (ops : list op) : list (op * plan) := map (fun o => (o, None)) ops.
 
-Theorem prun_refines : forall ops P, PAll Inv P ->
+Theorem prun_refines : forall ops P, PAll Inv P -> Forall benign ops ->
   PAll Inv (fst (prun (plain ops) P)) /\
   srun ops (absP P) = (absP (fst (prun (plain ops) P)), snd (prun (plain ops) P)).
 Proof.
-  induction ops as [|o ops IH]; intros P HP; simpl; auto.
+  induction ops as [|o ops IH]; intros P HP HB; simpl; auto.
+  inversion HB as [|? ? B1 B2]; subst.
   destruct (pstep None o P) as [P1 r] eqn:E. simpl.
-  destruct (pstep_refines _ _ _ _ HP E) as (A & B). rewrite B. simpl.
-  destruct (IH P1 A) as (C & D). rewrite D. auto.
+  destruct (pstep_refines _ _ _ _ HP B1 E) as (A & B). rewrite B. simpl.
+  destruct (IH P1 A B2) as (C & D). rewrite D. auto.
+Qed.
+
+(* the strong invariant needs no such side condition *)
+Lemma pstep_plain_quiet o P P' r : positional o = true -> pstep None o P = (P', r) -> r <> Faulted.
+Proof.
+  intros Hp H. destruct o; try discriminate; simpl in H; unfold on_obj in H;
+    (destruct (pget P i) as [st|]; [|inversion H; discriminate]); inversion H; subst; clear H.
+  - destruct (emplace None pos (Filled v) st) as [st' o] eqn:E. simpl. eapply emplace_None; eauto.
+  - destruct (erase None pos st) as [st' o] eqn:E. simpl. eapply erase_None; eauto.
+  - destruct (live_elem st k) as [s|]; [|simpl; discriminate].
+    destruct (emplace None pos s st) as [st' o] eqn:E. simpl. eapply emplace_None; eauto.
+Qed.
+
+Theorem prun_Inv_plain : forall ops P, PAll Inv P -> PAll Inv (fst (prun (plain ops) P)).
+Proof.
+  induction ops as [|o ops IH]; intros P HP; simpl; auto.
+  destruct (pstep None o P) as [P1 r] eqn:E. simpl. apply IH.
+  eapply pstep_Inv; eauto. intros Hp. eapply pstep_plain_quiet; eauto.
 Qed.
